@@ -56,5 +56,15 @@ theorem totalLiftDrag_eq (ns : ℕ) (CL CD S : ℕ → ℝ) (rho v St : ℝ) :
 theorem deg2rad_eq (a : ℝ) : F.cv_alpha a = deg2rad a := by
   simp only [F.cv_alpha, deg2rad, dec_eq]; norm_num
 
+/-- `LiftCoeff2D`: the sectional lift coefficient is the code's `Cl` line applied to its `lift_dist`, `chord`, `alpha` lines -/
+theorem liftCoeff2D_eq (nx : ℕ) (al rho v : ℝ) (Fc : ℕ → ℕ → V3 ℝ) (w c : ℕ → ℝ) (j : ℕ) :
+    liftCoeff2D nx al rho v Fc w c j
+      = F.lc2d_Cl (F.lc2d_lift_dist (V3.sumTo (nx - 1) (fun i => Fc i j)).x (Real.sin (F.lc2d_alpha al))
+          (V3.sumTo (nx - 1) (fun i => Fc i j)).z (Real.cos (F.lc2d_alpha al)) (w j)) rho v (F.lc2d_chord (c (j + 1)) (c j)) := by
+  have ha : F.lc2d_alpha al = deg2rad al := by simp only [F.lc2d_alpha, deg2rad, dec_eq]; norm_num
+  rw [ha]
+  simp only [liftCoeff2D, F.lc2d_Cl, F.lc2d_lift_dist, F.lc2d_chord, dec_eq, elem_sin, elem_cos]
+  norm_num
+
 end Formulas
 end OAS
